@@ -7,7 +7,7 @@
 (* Later events refer to the current object.  Every clause is judged        *)
 (* separately; a failing clause prints MISMATCH and the trace goes on.      *)
 (***************************************************************************)
-EXTENDS BlockCode, Json, IOUtils
+EXTENDS BlockCode, MacWilliams, Json, IOUtils
 
 TLog == ndJsonDeserialize(IOEnv.TRACE_FILE)
 
@@ -34,6 +34,7 @@ Advertise(e) ==
     LET f == FamilyNKD(e.family, e.params)
         dmin == IF cur.k <= e.enum_k THEN MinDistEnum(cur.G, cur.L) ELSE -1
         Gp == e.gpoly
+        mw == dmin < 0 /\ e.dualB # <<>> /\ cur.n <= 63        \* the MacWilliams route applies
     IN /\ Chk(f[1] < 0 \/ f[1] = cur.n, "length_matches_family_formula")
        /\ Chk(f[2] < 0 \/ f[2] = cur.k, "dimension_matches_family_formula")
        /\ Chk(Cardinality(DOMAIN cur.B) = cur.k, "advertised_dimension_is_the_true_dimension_of_the_code")
@@ -43,13 +44,18 @@ Advertise(e) ==
        /\ Chk(dmin < 0 \/ ~e.dexact \/ dmin = e.d, "true_distance_equals_documented_exact_value")
        /\ Chk((dmin < 0 /\ e.d > 0 /\ e.d <= 5 /\ cur.wf /\ cur.n - cur.k <= 16) => NoLightCodeword(cur.H, cur.n, e.d),
               "true_distance_at_least_advertised")
+       \* codes too large to enumerate: the true distance from the dual's weight distribution through the MacWilliams identity
+       /\ Chk(~mw \/ DualWellFormed(e.dualB, cur.n, cur.k), "harness_dual_weight_distribution_malformed")
+       /\ Chk((mw /\ e.d > 0) => NoWeightBelow(e.dualB, cur.n, e.d), "true_distance_at_least_advertised")
+       /\ Chk((mw /\ e.d > 0 /\ e.dexact) => HasWeight(e.dualB, cur.n, e.d), "true_distance_equals_documented_exact_value")
+       /\ Chk((mw /\ e.t >= 0) => NoWeightBelow(e.dualB, cur.n, 2 * e.t + 1), "advertised_correction_capability_within_half_the_true_distance")
        /\ Chk(dmin < 0 \/ e.t < 0 \/ 2 * e.t + 1 <= dmin, "advertised_correction_capability_within_half_the_true_distance")
        /\ Chk(e.cyclic => CyclicClosed(cur.G, cur.n, cur.B), "closed_under_cyclic_shifts")
        /\ Chk(Gp # <<-1>> => Divides({ j \in 0..cur.n : Gp[j + 1] = 1 }, {0, cur.n}), "generator_polynomial_divides_Xn_plus_1")
        /\ Chk((Gp # <<-1>> /\ e.cyclic) => \A i \in 1..cur.k : Divides({ j \in 0..cur.n : Gp[j + 1] = 1 }, Support(cur.G[i], cur.n)),
               "codewords_are_multiples_of_generator_polynomial")
        /\ Chk(e.perfect => SpherePacking(cur.n, cur.k, (e.d - 1) \div 2), "sphere_packing_bound_met_with_equality")
-       /\ (IF dmin >= 0 \/ e.d <= 0 \/ (e.d <= 5 /\ cur.wf /\ cur.n - cur.k <= 16) THEN TRUE
+       /\ (IF dmin >= 0 \/ mw \/ e.d <= 0 \/ (e.d <= 5 /\ cur.wf /\ cur.n - cur.k <= 16) THEN TRUE
            ELSE PrintT(<<"NOTCOVERED", TLog[l].tid, l, "distance_not_decided_for_this_size">>))
        /\ UNCHANGED cur
 
